@@ -16,6 +16,7 @@
 -/
 import CorgiProofs.RealDeriv
 import CorgiProofs.RealClosures
+import CorgiProofs.LinearHeap
 
 namespace Corgi
 
@@ -132,3 +133,75 @@ end Corgi
 #print axioms Corgi.C02_closure_add
 #print axioms Corgi.C02_closure_mul
 #print axioms Corgi.C02_closure_div
+
+/-! ### the stored closures over ℝ satisfy the value laws (`Sem`) — instances and non-vacuity -/
+
+namespace Corgi
+
+instance : AddLaws ℝ where
+  add_comm := add_comm
+  add_assoc := add_assoc
+  zero_add := zero_add
+
+instance : MulLaws ℝ where
+  left_distrib := mul_add
+  right_distrib := add_mul
+  div_add := fun a b c => add_div a b c
+
+/-- a two-node heap: a tracked leaf `a : [2]` and the recorded product `a * a` -/
+noncomputable def exHeap : State ℝ :=
+  let p := hLeaf ({} : State ℝ) ⟨[2], [3, 4]⟩
+  let a : Handle := { p.2 with tracked := true, keep := true }
+  (p.1.alloc ⟨[2], [9, 16]⟩ [a, a] (some .mul) true).1
+
+theorem exHeap_good : Good exHeap := by
+  have h0 := (good_init : Good ({} : State ℝ))
+  have h1 := heapInv_alloc ({} : State ℝ) h0.heap ⟨[2], [3, 4]⟩ [] none false "" (by simp) (by simp)
+  have hv : ({ (hLeaf ({} : State ℝ) ⟨[2], [3, 4]⟩).2 with tracked := true, keep := true } : Handle).Valid
+      (hLeaf ({} : State ℝ) ⟨[2], [3, 4]⟩).1 := h1.2.1
+  have h2 := heapInv_alloc _ h1.1 ⟨[2], [9, 16]⟩ [_, _] (some (.mul : OpTag ℝ)) true "" (valid2 hv hv)
+    (fun _ => ⟨.mul, rfl, by simp [tagOK]⟩)
+  exact ⟨h2.1, ⟨by simp [exHeap, State.alloc, hLeaf], by simp [exHeap, State.alloc, hLeaf],
+    by simp [exHeap, State.alloc, hLeaf]⟩⟩
+
+/-- **non-vacuity of `C01_pathsum_of_stored_closures`**: the hypothesis `ShapeOK` holds of a heap with a
+    recorded operation -/
+theorem exHeap_shapeOK : ShapeOK exHeap := by
+  have hnodes : exHeap.nodes = #[⟨[], none, 0, "", [2]⟩, ⟨[⟨[2], 0, 0, true, true⟩, ⟨[2], 0, 0, true, true⟩], some .mul, 1, "", [2]⟩] := by
+    simp [exHeap, State.alloc, hLeaf]
+  have hbufs : exHeap.bufs = #[[3, 4], [9, 16]] := by simp [exHeap, State.alloc, hLeaf]
+  refine ⟨?_, ?_, ?_⟩
+  · intro n r hn
+    rw [hnodes] at hn
+    match n, hn with
+    | 0, hn => simp at hn; subst hn; simp [DimsOK]
+    | 1, hn => simp at hn; subst hn; simp [DimsOK]
+    | n + 2, hn => simp at hn
+  · intro n r hn k hk
+    rw [hnodes] at hn
+    match n, hn with
+    | 0, hn => simp at hn; subst hn; simp at hk
+    | 1, hn =>
+      simp at hn; subst hn
+      simp at hk
+      subst hk
+      exact ⟨_, by rw [hnodes]; rfl, rfl⟩
+    | n + 2, hn => simp at hn
+  · intro n r tag hn hop
+    rw [hnodes] at hn
+    match n, hn with
+    | 0, hn => simp at hn; subst hn; simp at hop
+    | 1, hn =>
+      simp at hn; subst hn
+      simp at hop; subst hop
+      refine ⟨⟨[2], [3, 4]⟩, ⟨[2], [3, 4]⟩, ?_, ?_, ?_, ?_, ?_⟩
+      · simp [State.tensorOf, hbufs]
+      · exact ⟨⟨by simp, by simp [prod]⟩, by simp⟩
+      · exact ⟨⟨by simp, by simp [prod]⟩, by simp⟩
+      · rfl
+      · rfl
+    | n + 2, hn => simp at hn
+
+end Corgi
+
+#print axioms Corgi.exHeap_shapeOK
